@@ -491,6 +491,29 @@ def generate(repo):
     defstmt("unset_inert", loop_body(model, consts, "unset_inert_moles", ["inert_moles"]), "unset_inert_moles(): loop body")
     defstmt("equal_body", whole_body(util, consts, "equal"), "equal(a, b, eps)")
 
+    # ineq(): body of the loop that copies the EQUALITY equations into the cl1 problem (force_equality phases among them)
+    t = model.toks
+    lo, hi = cp.find_function(t, "ineq")
+    best = None
+    for kw, b in loops_in(t, lo, hi):
+        e = match(t, b) + 1 if t[b][1] == "{" else stmt_end(t, b)
+        if contains(t, b, e, ["Get_force_equality", "(", ")"]) and contains(t, b, e, ["PITZER_GAMMA"]) and contains(t, b, e, ["memcpy", "("]):
+            if best is None or (e - b) < (best[1] - best[0]):
+                best = (b, e)
+    if best is None:
+        raise Refuse("ineq(): loop copying the equality equations not found")
+    src_gs = open(os.path.join(repo, PP_DIR, "global_structures.h"), errors="replace").read()
+    _, defs_gs = cp.preprocess(src_gs)
+    consts_t = dict(consts)
+    for k in ("MB", "ALK", "CB", "SOLUTION_PHASE_BOUNDARY", "MU", "AH2O", "MH", "MH2O", "PP", "EXCH", "SURFACE", "SURFACE_CB",
+              "SURFACE_CB1", "SURFACE_CB2", "GAS_MOLES", "SS_MOLES", "PITZER_GAMMA"):
+        try:
+            consts_t[k] = ("num", Fraction(defs_gs[k]))
+        except Exception:
+            raise Refuse("#define %s (type of an unknown) not found as a number in global_structures.h" % k)
+    defstmt("ineq_equalities", parse_at(t, best[0], consts_t), "ineq(): body of the loop that copies the equality equations (types of unknowns as numbers)")
+    w("Definition c_PP : Q := %s.  (* global_structures.h *)\n" % cp.coq_q(consts_t["PP"][1]))
+
     # reactions(): body of the loop over the reaction steps
     defstmt("reaction_step_body", loop_body(mains, consts, "reactions", ["run_reactions", "("]),
             "reactions(): body of the loop over reaction steps")
